@@ -92,6 +92,7 @@ pub fn filter_num(l: log::LevelFilter) -> i64 {
 #[derive(Debug, Default)]
 pub struct Counter {
     pub n: AtomicUsize,
+    pub fail: std::sync::atomic::AtomicBool,
 }
 
 #[derive(Debug)]
@@ -100,6 +101,9 @@ pub struct CountingAppender(pub Arc<Counter>);
 impl log4rs::append::Append for CountingAppender {
     fn append(&self, _record: &log::Record) -> anyhow::Result<()> {
         self.0.n.fetch_add(1, Ordering::Relaxed);
+        if self.0.fail.load(Ordering::Relaxed) {
+            anyhow::bail!("scripted appender failure");
+        }
         Ok(())
     }
     fn flush(&self) {}
